@@ -252,15 +252,24 @@ class Campaign:
             p = f.name
         env = dict(os.environ)
         env["PYTHONHASHSEED"] = "0"
-        r = subprocess.run([sys.executable, "-m", "vf.cli", self.mod.ID, "--replay", p, "--raw"],
-                           capture_output=True, text=True, cwd=common.VERIF, env=env, timeout=600)
+        proc = subprocess.Popen([sys.executable, "-m", "vf.cli", self.mod.ID, "--replay", p, "--raw"],
+                                stdout=subprocess.PIPE, stderr=subprocess.PIPE, text=True, cwd=common.VERIF, env=env)
+        try:
+            so, se = proc.communicate(timeout=600)
+        except subprocess.TimeoutExpired:
+            proc.kill()
+            so, se = proc.communicate()
+            os.unlink(p)
+            return viol("hang", "isolated case did not finish within 600 s")
         os.unlink(p)
-        if r.returncode < 0 or r.returncode > 2:
-            return viol("crash:exit%d" % r.returncode, (r.stderr or "")[-1500:])
-        for line in r.stdout.splitlines():
+        for line in so.splitlines():
             if line.startswith("OUTCOME "):
                 return json.loads(line[8:])
-        return {"st": "harness", "detail": "isolated replay gave no outcome:\n" + r.stdout[-500:] + r.stderr[-1500:],
+        san = san_report(proc.pid)
+        if proc.returncode < 0 or proc.returncode > 2 or san or "AddressSanitizer" in (se or ""):
+            sig = "crash:" + (san[0] if san else "exit%d" % proc.returncode)
+            return viol(sig, (san[1] if san else "") + (se or "")[-1500:])
+        return {"st": "harness", "detail": "isolated replay gave no outcome:\n" + so[-500:] + (se or "")[-1500:],
                 "nt": False, "labels": []}
 
     def run_shards(self):
@@ -324,7 +333,9 @@ class Campaign:
                 except Exception:
                     case = None
         self.crashes.append((p.exitcode, case))
-        out = viol("crash:exit%s" % p.exitcode, "worker process died (exit code %s) while running this case" % p.exitcode)
+        san = san_report(p.pid)
+        out = viol("crash:" + (san[0] if san else "exit%s" % p.exitcode),
+                   "worker process died (exit code %s) while running this case\n%s" % (p.exitcode, san[1] if san else ""))
         if case is not None:
             self.total.record(self.mod, case, out)
         else:
@@ -362,6 +373,23 @@ class Campaign:
             out["probe_of"] = fid
             self.total.record(self.mod, case, out)
             self.probe_results.append((fid, out["st"]))
+
+
+def san_report(pid):
+    """(signature, text) of the sanitizer log a (dead) process left behind, if any."""
+    d = os.environ.get("VF_ASAN_LOGDIR")
+    if not d:
+        return None
+    p = os.path.join(d, "san.%d" % pid)
+    try:
+        with open(p, "rb") as f:
+            txt = f.read().decode("utf8", "replace")
+    except OSError:
+        return None
+    if not txt.strip():
+        return None
+    from vf.props.c12 import parse_report
+    return parse_report(txt)
 
 
 def shrink(mod, case, sig, budget_s, isolated=False, runner=None):
